@@ -1,5 +1,8 @@
 import SamplyModel.Lemmas.FileCreationRetry
 import SamplyModel.Lemmas.DownloadWrite
+import SamplyModel.Lemmas.FileCreationAsync
+import SamplyModel.Lemmas.DownloadCompose
+import SamplyModel.Lemmas.FileCreationOnce
 /-!
 # C16 — cache files appear atomically: complete or not at all
 
@@ -160,13 +163,15 @@ theorem C16_quiet_holds_no_lock (pl : Pid → Content) (s : State) (h : Reachabl
   rw [quiet_holds hq] at this
   simp at this
 
-/-- **Retry.** From *any* reachable state in which no creator is live (whatever earlier attempts left
-behind: a `.lock` file, a partial `.part` file, or a complete destination), a fresh creator `p` whose
+/-- **Retry.** From *any* reachable state in which no creator is live — every creator is finished, failed,
+killed, not started, or a cancelled waiter whose detached flock thread is still blocked (`passive`; this
+includes every state with all creators `quiet`) — whatever earlier attempts left
+behind (a `.lock` file, a partial `.part` file, or a complete destination), a fresh creator `p` whose
 operations all succeed runs to completion on its own: if the destination was absent it returns "created"
 and the destination holds exactly `p`'s complete payload; if it was present `p` returns through the
 existing-file handler and the destination is unchanged. A failed or killed attempt never blocks a later one. -/
 theorem C16_retry (pl : Pid → Content) (s : State) (h : Reachable pl s)
-    (hquiet : ∀ q, quiet (s.pc q) = true) (p : Pid) (hp : s.pc p = .idle) :
+    (hquiet : ∀ q, passive (s.pc q) = true) (p : Pid) (hp : s.pc p = .idle) :
     ∃ n s', run pl s (List.replicate n (Act.step p)) = some s' ∧
       ((s.dest = none ∧ s'.pc p = .doneCreated ∧ s'.destContent = some (pl p)) ∨
        (s.dest ≠ none ∧ s'.pc p = .doneExisting ∧ s'.destContent = s.destContent)) := by
@@ -277,6 +282,14 @@ example : ((run C16_payload State.init
     some (none, some [1], some 0, .dead, .idle) := by decide
 
 
+/-- … and by a state in which a cancelled waiter's detached flock thread is still blocked (4 is `zombieWait`)
+after the lock holder 0 was killed mid-write: everybody is `passive`, nobody `quiet`-only -/
+example : ((run C16_payload State.init
+    [.step 0, .step 0, .step 0, .step 0, .step 0, .step 4, .step 4, .cancel 4, .crash 0]).map fun s =>
+    (s.pc 0, s.pc 4, s.pc 5, passive (s.pc 0) && passive (s.pc 4) && passive (s.pc 5), quiet (s.pc 4))) =
+    some (.dead, .zombieWait 0, .idle, true, false) := by decide
+
+
 /-! ## The download call site (`wholesym/src/downloader.rs:322-347`)
 
 `create_file_cleanly` renames `dest.part` onto `dest` exactly when the write callback returns `Ok`
@@ -317,3 +330,252 @@ theorem C16_download_without_flush_loses_last_error :
 
 /-- non-vacuity: a two-piece download with healthy disk satisfies the right-hand side of the iff -/
 example : (DL.run ⟨fun _ => true, fun _ => 0⟩ true [some [1, 2], some [3]]).1 = .ok 3 := by decide
+
+
+/-! ## The callbacks as they are: writes deferred to tokio's blocking pool (`Model/FileCreationAsync.lean`)
+
+Both real callbacks wrap the temp file in a `tokio::fs::File`; a write is handed to the blocking pool and
+is executed later, and dropping the file does not wait for it. `FCA.next joinOnDrop` keeps the protocol
+state of `FC` and adds the real inode contents and the queue of writes not yet executed;
+`joinOnDrop = false` is the code as it is. -/
+
+/-- Whatever the blocking pool does with the deferred writes, the PROTOCOL state (program counters, the
+three names, flock owners, winners) of the deferred-write system is a reachable state of `FC`: hence
+`C16_mutex`, `C16_at_most_once`, `C16_same_lock_inode`, `C16_lock_unlinked_only_when_dest_exists`,
+`C16_quiet_holds_no_lock` hold for the real callbacks as well (both values of `joinOnDrop`). -/
+theorem C16_async_protocol_is_FC (m : Bool) (pl : Pid → Content) (s : FCA.State)
+    (h : FCA.Reachable m pl s) : Reachable pl s.base :=
+  FCA.base_reachable h
+
+/-- … e.g. mutual exclusion and at-most-one rename for the deferred-write system -/
+theorem C16_async_mutex_once (m : Bool) (pl : Pid → Content) (s : FCA.State) (h : FCA.Reachable m pl s) :
+    (∀ p q, inCS (s.base.pc p) = true → inCS (s.base.pc q) = true → p = q ∧ s.base.dest = none) ∧
+    s.base.winners.length ≤ 1 :=
+  ⟨fun p q hp hq => C16_mutex pl s.base (FCA.base_reachable h) p q hp hq,
+   (C16_at_most_once pl s.base (FCA.base_reachable h)).1⟩
+
+/-- creator 0 hands its first chunk to the blocking pool and is cancelled (`flush().await` /
+`stream.read().await` dropped): lock released, write still queued. Creator 2 then creates the file —
+lock, stat, `open(.part, O_TRUNC)` on the SAME inode, three writes, flush, rename, unlock — and returns
+"created". Then the pool executes creator 0's write. -/
+def C16_stragglerSchedule : List FCA.Act :=
+  [.base (.step 0), .base (.step 0), .base (.step 0), .base (.step 0),   -- 0: lock file, flock, stat, open .part
+   .base (.step 0),                                                       -- 0: write_all [1] -> queued
+   .base (.cancel 0),                                                     -- 0: future dropped
+   .base (.step 2), .base (.step 2), .base (.step 2), .base (.step 2),   -- 2: lock file, flock, stat, open .part
+   .base (.step 2), .base (.step 2), .base (.step 2), .base (.step 2),   -- 2: 30, 40, 50, flush
+   .base (.step 2), .base (.step 2), .base (.step 2)]                     -- 2: rename, close lock, unlink lock
+
+/-- **Finding (C16-cancel-inflight-write).** In the code as it is (`joinOnDrop = false`) the final path is
+NOT stable and NOT atomic under cancellation: after creator 2 has returned "created" with its complete
+payload `[30, 40, 50]` at the final path, the write that the cancelled creator 0 left in the blocking pool
+is executed on the published inode; the final path then holds `[1, 40, 50]`, nobody's payload. (The
+harness reproduces exactly this on the real `.symindex` call site: op `cancelwrite`.) -/
+theorem C16_cancel_with_write_in_flight_breaks_atomicity :
+    ((FCA.run false C16_payload FCA.State.init C16_stragglerSchedule).map fun s =>
+        (s.base.pc 2, s.destDisk, s.inflight.length)) = some (.doneCreated, some [30, 40, 50], 1) ∧
+    ((FCA.run false C16_payload FCA.State.init (C16_stragglerSchedule ++ [.land 0])).map fun s =>
+        (s.base.pc 2, s.destDisk)) = some (.doneCreated, some [1, 40, 50]) := by
+  decide
+
+/-- with `joinOnDrop = true` the same cancellation leaves nothing queued: the schedule ends with the complete
+payload at the final path and there is no write left to execute -/
+example : ((FCA.run true C16_payload FCA.State.init C16_stragglerSchedule).map fun s =>
+    (s.destDisk, s.inflight.length)) = some (some [30, 40, 50], 0) := by decide
+
+/-- **Deferred writes are harmless when a dropped callback waits for its write** (`joinOnDrop = true`: a
+callback that writes synchronously through the `std::fs::File` it is given, or one that joins / flushes its
+`tokio::fs::File` before it is dropped). In every reachable state — any number of creators, every schedule
+of creators and of the blocking pool, every fault, kill and cancellation — the bytes really at the final
+path are the ones the protocol model accounts for, a callback that returned `Ok` has its complete payload
+in the temp file, and at most one write is ever queued. -/
+theorem C16_async_join_on_drop_disk_is_model (pl : Pid → Content) (s : FCA.State)
+    (h : FCA.Reachable true pl s) :
+    s.destDisk = s.base.destContent ∧
+    (∀ p i, s.base.pc p = .wroteOk i → s.partDisk = some (pl p)) ∧
+    s.inflight.length ≤ 1 := by
+  have hA := FCA.ainv_reachable h
+  have hI := inv_reachable (FCA.base_reachable h)
+  refine ⟨?_, ?_, hA.fl1⟩
+  · cases hd : s.base.dest with
+    | none => simp [FCA.State.destDisk, State.destContent, hd]
+    | some j => simp [FCA.State.destDisk, State.destContent, hd, hA.dst j hd]
+  · intro p i hp
+    obtain ⟨j, hj, _⟩ := hI.wrote p i hp
+    simp [FCA.State.partDisk, hj, hA.ok p i hp j hj]
+
+/-- … hence atomicity of the real bytes: the final path does not exist or holds the complete payload of the
+one creator that renamed, -/
+theorem C16_async_join_on_drop_atomic (pl : Pid → Content) (s : FCA.State) (h : FCA.Reachable true pl s) :
+    (s.destDisk = none ∧ s.base.winners = []) ∨
+    ∃ w, s.destDisk = some (pl w) ∧ s.base.winners = [w] := by
+  rw [(C16_async_join_on_drop_disk_is_model pl s h).1]
+  exact C16_atomic pl s.base (FCA.base_reachable h)
+
+/-- every success sees the complete file in the real bytes, -/
+theorem C16_async_join_on_drop_success_sees_complete (pl : Pid → Content) (s : FCA.State)
+    (h : FCA.Reachable true pl s) (p : Pid) :
+    (s.base.pc p = .doneCreated → s.destDisk = some (pl p)) ∧
+    (s.base.pc p = .doneExisting ∨ s.base.pc p = .exUnlinked → ∃ w, s.destDisk = some (pl w)) := by
+  rw [(C16_async_join_on_drop_disk_is_model pl s h).1]
+  exact C16_success_sees_complete pl s.base (FCA.base_reachable h) p
+
+/-- and no later transition — of a creator or of the blocking pool — changes a complete final file. The
+finding above is exactly the failure of this statement for `joinOnDrop = false`. -/
+theorem C16_async_join_on_drop_dest_stable (pl : Pid → Content) (s s' : FCA.State) (a : FCA.Act)
+    (h : FCA.Reachable true pl s) (hn : FCA.next true pl s a = some s') (c : Content)
+    (hc : s.destDisk = some c) : s'.destDisk = some c := by
+  have h' : FCA.Reachable true pl s' := FCA.Reachable.step a h hn
+  rw [(C16_async_join_on_drop_disk_is_model pl s h).1] at hc
+  rw [(C16_async_join_on_drop_disk_is_model pl s' h').1]
+  rcases FCA.next_base hn with hb | ⟨a', hb⟩
+  · rw [hb]; exact hc
+  · exact C16_dest_stable pl s.base s'.base a' (FCA.base_reachable h) hb c hc
+
+/-- **The code as it is, away from the finding.** On every history of the deferred-write system of the real
+code (`joinOnDrop = false`; any creators, schedules of creators and blocking pool, faults, kills,
+cancellations at all three await points) in which no write is in flight at the moments a callback is dropped
+or returns an error (`FCA.ReachableQD`), the real bytes at the final path are absent or the complete payload of
+the one creator that renamed, and equal the protocol model's. So the ONLY way the real callbacks can violate
+atomicity is the one of `C16_cancel_with_write_in_flight_breaks_atomicity`: a write still queued when the
+`tokio::fs::File` is dropped inside the callback. -/
+theorem C16_async_as_is_atomic_unless_write_in_flight_at_drop (pl : Pid → Content) (s : FCA.State)
+    (h : FCA.ReachableQD pl s) :
+    s.destDisk = s.base.destContent ∧
+    ((s.destDisk = none ∧ s.base.winners = []) ∨ ∃ w, s.destDisk = some (pl w) ∧ s.base.winners = [w]) ∧
+    (∀ p, s.base.pc p = .doneCreated → s.destDisk = some (pl p)) :=
+  have h' := FCA.reachableQD_true h
+  ⟨(C16_async_join_on_drop_disk_is_model pl s h').1, C16_async_join_on_drop_atomic pl s h',
+   fun p => (C16_async_join_on_drop_success_sees_complete pl s h' p).1⟩
+
+/-- non-vacuity of `ReachableQD`: a cancellation inside the callback AFTER the queued write has been executed -/
+example : ∃ s, FCA.ReachableQD C16_payload s ∧ s.base.pc 0 = .dead ∧ s.partDisk = some [1] ∧ s.inflight = [] := by
+  have step := @FCA.ReachableQD.step C16_payload
+  refine ⟨_, step (.base (.cancel 0)) (step (.land 0) (step (.base (.step 0)) (step (.base (.step 0))
+    (step (.base (.step 0)) (step (.base (.step 0)) (step (.base (.step 0)) FCA.ReachableQD.init
+    (by decide) rfl) (by decide) rfl) (by decide) rfl) (by decide) rfl) (by decide) rfl) (by decide) rfl)
+    (by decide) rfl, by decide, by decide, by decide⟩
+
+/-- non-vacuity: a `joinOnDrop = true` history with a write still queued, a cancellation and a second creator -/
+example : ((FCA.run true C16_payload FCA.State.init
+    [.base (.step 0), .base (.step 0), .base (.step 0), .base (.step 0), .base (.step 0),
+     .base (.step 0)]).map fun s => (s.inflight.length, s.partDisk)) = some (1, some [1]) := by decide
+
+
+/-! ## The download callback composed with the protocol (`DL` ∘ `FC`)
+
+`FC` abstracts a write callback as "append chunks of `pl p`; `Ok` only after the last one; `Err` anywhere".
+For the downloader's callback this is a theorem: with bytes as chunks (`FC.enc`) and
+`pl p = enc (DL.payload stream)`, every run of `DL.run` — any stream, any disk — is a run of `FC`. -/
+
+/-- **The download callback is a writer of the protocol model.** Entered with the temp file open
+(`writing i j 0`), whatever the stream delivers and whichever writes fail, the callback's effect on the
+temp file is `n` chunk writes of `FC` (`n` bytes of `p`'s payload = the bytes of the stream); if it returns
+`Ok` then `n` is the whole payload and the next `FC` step is "callback returned Ok" (`wroteOk`); otherwise
+`FC`'s `fail p` ("callback returned Err") is enabled. -/
+theorem C16_download_callback_is_fc_writer (env : DL.Env) (stream : List (Option (List UInt8)))
+    (pl : Pid → Content) (p : Pid) (hpl : pl p = enc (DL.payload stream))
+    (s : State) (i j : Inode) (hs : s.pc p = .writing i j 0) :
+    ∃ n s', run pl s (List.replicate n (Act.step p)) = some s' ∧ s'.pc p = .writing i j n ∧
+      s'.content j = s.content j ++ enc (DL.run env true stream).2.file ∧
+      s'.part = s.part ∧ s'.dest = s.dest ∧ (∀ q, q ≠ p → s'.pc q = s.pc q) ∧
+      ((∃ m, (DL.run env true stream).1 = .ok m) →
+          n = (pl p).length ∧ ∃ s'', next pl s' (.step p) = some s'' ∧ s''.pc p = .wroteOk i ∧
+            s''.content = s'.content) ∧
+      ∃ s'', next pl s' (.fail p) = some s'' ∧ s''.pc p = .failed i .callback ∧ s''.content = s'.content := by
+  obtain ⟨k, hk⟩ := DL.callback_file_prefix (env := env) true stream {}
+  have hfile : (DL.run env true stream).2.file = (DL.payload stream).take k := by
+    simpa [DL.run] using hk
+  let n := min k (DL.payload stream).length
+  have hlen : (pl p).length = (DL.payload stream).length := by simp [hpl, enc]
+  have htk : (DL.payload stream).take k = (DL.payload stream).take n := by
+    rw [List.take_eq_take_iff]; simp [n]
+  obtain ⟨s', hr, hp, hc, hpart, hdest, _, hoth⟩ :=
+    run_writes (pl := pl) (p := p) (i := i) (j := j) n 0 s hs (by rw [hlen]; simp [n]; exact Nat.min_le_right _ _)
+  refine ⟨n, s', hr, by simpa using hp, ?_, hpart, hdest, hoth, ?_, ?_⟩
+  · rw [hc, hfile, htk, hpl]
+    simp [enc, List.map_take]
+  · rintro ⟨m, hm⟩
+    have h' := DL.callback_ok stream {} m (DL.run env true stream).2 (by rw [← hm]; rfl)
+    have hfull : (DL.run env true stream).2.file = DL.payload stream := by simpa using h'.2.2.2.1
+    have hn : n = (pl p).length := by
+      have := congrArg List.length (hfile.symm.trans hfull)
+      rw [htk] at this
+      simp at this
+      omega
+    refine ⟨hn, ?_⟩
+    have hnone : (pl p)[n]? = none := by simp [hn]
+    have hp' : s'.pc p = .writing i j n := by simpa using hp
+    cases hx : next pl s' (.step p) with
+    | none => simp [next, stepP, hp', hnone] at hx
+    | some s'' =>
+      simp [next, stepP, hp', hnone] at hx
+      subst hx
+      exact ⟨_, rfl, by simp [upd], rfl⟩
+  · have hp' : s'.pc p = .writing i j n := by simpa using hp
+    cases hx : next pl s' (.fail p) with
+    | none => simp [next, failP, hp'] at hx
+    | some s'' =>
+      simp [next, failP, hp'] at hx
+      subst hx
+      exact ⟨_, rfl, by simp [upd], rfl⟩
+
+/-- **End to end for the downloader.** With every creator's payload the bytes of its download stream, in
+every reachable state of the protocol the final path is absent or holds exactly the bytes of the stream of
+the one creator that renamed — the file at the final path IS the download. -/
+theorem C16_download_dest_is_stream (stream : Pid → List (Option (List UInt8))) (s : State)
+    (h : Reachable (fun p => enc (DL.payload (stream p))) s) (c : Content)
+    (hc : s.destContent = some c) :
+    ∃ w, s.winners = [w] ∧ c = enc (DL.payload (stream w)) := by
+  rcases C16_atomic _ s h with ⟨hn, _⟩ | ⟨w, hw, hwin⟩
+  · rw [hn] at hc; simp at hc
+  · rw [hw] at hc
+    exact ⟨w, hwin, (Option.some.inj hc).symm⟩
+
+/-- non-vacuity: a download whose second write fails on disk is a writer that stops after the bytes of the
+first piece and is refused `Ok` -/
+example : (DL.run ⟨fun k => k != 1, fun _ => 0⟩ true [some [1, 2], some [3, 4], some [5]]).1 = .diskWrite ∧
+    (DL.run ⟨fun k => k != 1, fun _ => 0⟩ true [some [1, 2], some [3, 4], some [5]]).2.file = [1, 2] := by
+  decide
+
+
+/-! ## "The contents are written successfully at most once", counted in write callbacks
+
+`C16_at_most_once` counts renames. The statement of C16 (and the judge: `writes_ok`) counts write callbacks
+that returned `Ok` (`okWrites`, a ghost list extended by the transition `writing → wroteOk`). The two differ
+exactly by the attempts that were lost between `Ok` and the rename (`lost`: the creator was killed at
+that point, or its rename failed). -/
+
+/-- **At most one successful write, up to lost attempts.** In every reachable state the number of write
+callbacks that have returned `Ok` is at most one more than the number of attempts lost after their `Ok`
+(killed before the rename / rename failed): each `Ok` was renamed (at most one ever), lost, or is the single
+one about to be renamed. In particular, while no attempt has been lost that way — no kill between `Ok` and
+rename, no rename error — the contents have been written successfully at most once. -/
+theorem C16_written_at_most_once (pl : Pid → Content) (s : State) (h : Reachable pl s) :
+    s.okWrites.length = s.winners.length + s.lost.length + (if s.okAt.isSome then 1 else 0) ∧
+    s.okWrites.length ≤ 1 + s.lost.length ∧
+    (s.lost = [] → s.okWrites.length ≤ 1) := by
+  have hinv := inv_reachable h
+  have ho := oinv_reachable h
+  have key : s.winners.length + (if s.okAt.isSome then 1 else 0) ≤ 1 := by
+    cases hok : s.okAt with
+    | none => rcases hinv.destOk with ⟨_, hw⟩ | ⟨w, j, _, _, hw⟩ <;> simp [hw]
+    | some q =>
+      have hcs := (isWroteOk_eq (ho.k2 q hok)).1
+      have hd := hinv.dest_none_of_inCS hcs
+      rcases hinv.destOk with ⟨_, hw⟩ | ⟨w, j, hd', _, _⟩
+      · simp [hw]
+      · rw [hd] at hd'; simp at hd'
+  have k3 := ho.k3
+  refine ⟨k3, by omega, ?_⟩
+  intro hl
+  rw [hl] at k3
+  simp at k3
+  omega
+
+/-- non-vacuity of the `lost` case: creator 0's rename fails after a good write, creator 1 then writes
+successfully as well — two `Ok`s, one lost, one renamed -/
+example : ((run C16_payload State.init
+    [.step 0, .step 0, .step 0, .step 0, .step 0, .step 0, .step 0, .fail 0, .step 0, .step 0,
+     .step 1, .step 1, .step 1, .step 1, .step 1, .step 1, .step 1, .step 1]).map fun s =>
+    (s.okWrites, s.lost, s.winners, s.pc 0)) = some ([1, 0], [0], [1], .doneErr .rename) := by decide
